@@ -249,10 +249,29 @@ fn is_fast(views: &J, expect: &J, ask: &[Vec<String>]) -> bool {
 fn replay(args: &[String]) -> i32 {
     let inp = arg_value(args, "--in").unwrap_or("-");
     let out = arg_value(args, "--out").unwrap_or("-");
+    let skip: u64 = arg_value(args, "--skip").and_then(|s| s.parse().ok()).unwrap_or(0);
+    if let Some(wd) = arg_value(args, "--watch") {
+        // a hang or a crash of the code under test becomes an event (util::watchdog_start)
+        watchdog_start(wd, 30, arg_flag(args, "--sync"));
+    }
     let mut w = open_out(out);
     let mut n = 0u64;
     for_each_case(inp, |case| {
         n += 1;
+        if n <= skip {
+            return;
+        }
+        heartbeat(|| {
+            let mut rec = json!({"k": case["k"], "id": n, "fast": false, "crash": true,
+                                 "text": case["text"], "ask": case["ask"],
+                                 "views": [{"view": "raw", "parse": "crash"}, {"view": "exp", "parse": "crash"}]});
+            if case["k"] == "mc" {
+                rec["abs"] = case["abs"].clone();
+            } else {
+                rec["doc"] = case["doc"].clone();
+            }
+            rec.to_string()
+        });
         let text = cps_to_string(&case["text"]);
         let ask = ask_of(&case);
         let views = observe(&text, &ask);
@@ -270,6 +289,9 @@ fn replay(args: &[String]) -> i32 {
             rec["ask"] = case["ask"].clone();
         }
         writeln!(w, "{}", rec).unwrap();
+        if arg_flag(args, "--sync") {
+            w.flush().unwrap();
+        }
     });
     0
 }
@@ -506,14 +528,29 @@ fn record(args: &[String]) -> i32 {
     let out = arg_value(args, "--out").unwrap_or("-");
     let mut w = open_out(out);
     let mut rng = StdRng::seed_from_u64(seed.wrapping_mul(0x9E37_79B9_7F4A_7C15) ^ 0xC11);
+    let skip: u64 = arg_value(args, "--skip").and_then(|s| s.parse().ok()).unwrap_or(0);
+    if let Some(wd) = arg_value(args, "--watch") {
+        watchdog_start(wd, 30, arg_flag(args, "--sync"));
+    }
     for i in 1..=count {
         let doc = rand_doc(&mut rng);
+        if i <= skip {
+            continue;
+        }
         let text = render(&doc);
         let ask = ask_for_doc(&doc);
+        heartbeat(|| {
+            json!({"k": "rnd", "id": i, "doc": doc, "text": string_to_cps(&text), "fast": false, "crash": true,
+                   "views": [{"view": "raw", "parse": "crash"}, {"view": "exp", "parse": "crash"}]})
+            .to_string()
+        });
         let views = observe(&text, &ask);
         let rec = json!({"k": "rnd", "id": i, "doc": doc, "text": string_to_cps(&text), "views": views,
                          "fast": false});
         writeln!(w, "{}", rec).unwrap();
+        if arg_flag(args, "--sync") {
+            w.flush().unwrap();
+        }
     }
     0
 }
